@@ -1497,6 +1497,22 @@ def check_envelope_roundtrip(out, cls, signable, sig, what):
     if again is not None:
         out.check(again == data, what + "-reserialise-differs", "%s != %s" % (again[:200].hex(), data[:200].hex()))
     out.check(getattr(dec, "version", 2) == 2, what + "-roundtrip-version", "%r" % getattr(dec, "version", None))
+    # history: the daemon's update commands copy a claim with from_bytes(old.to_bytes()) and then edit the copy; parsing
+    # the same bytes again afterwards must still give an object equal to those bytes
+    try:
+        first = cls.from_bytes(data)
+        if first.is_signed:
+            first.clear_signature()
+        else:
+            first.signing_channel_hash = b"\x07" * 20
+            first.signature = b"\x08" * 64
+        first.message.Clear()
+        second = cls.from_bytes(data)
+        out.check(second.to_bytes() == data and second.is_signed == bool(sig), what + "-decode-not-independent-of-earlier-edit",
+                  "second parse of the same bytes re-serialises to %s" % second.to_bytes()[:120].hex())
+        dec = cls.from_bytes(data) if second.to_bytes() != data else dec
+    except Exception as e:  # noqa
+        out.violate(what + "-second-decode-raises:" + type(e).__name__, repr(e)[:200])
     return dec, payload if ok else None
 
 
